@@ -722,8 +722,12 @@ func genHttpSites() {
 	type site struct {
 		loc, fn, kind, format string
 		args                  []hcls
+		ctxs                  []string
 		line                  int
 	}
+	// HTML tokenizer state per (function, destination), carried from one output site to
+	// the next in source order: a function starts in element-text context
+	states := map[string]*httpCtxState{}
 	var sites []site
 	for _, f := range files {
 		for _, d := range f.Decls {
@@ -739,6 +743,10 @@ func genHttpSites() {
 				var kind string
 				var fmtArg ast.Expr
 				var rest []ast.Expr
+				dst := "?"
+				if len(c.Args) > 0 {
+					dst = src(c.Args[0])
+				}
 				if cc, ok := httpIsPkgCall(c, "fmt", "Fprintf"); ok && len(cc.Args) >= 2 {
 					kind = ".fprintf"
 					if t := x.info.TypeOf(cc.Args[0]); t != nil && t.String() == "*bytes.Buffer" {
@@ -760,6 +768,7 @@ func genHttpSites() {
 					// w.Write(…) on a ResponseWriter / io.Writer
 					if t := x.info.TypeOf(sel.X); t != nil && (t.String() == "net/http.ResponseWriter" || t.String() == "io.Writer") {
 						kind, rest = ".fprintf", c.Args
+						dst = src(sel.X)
 					} else {
 						return true
 					}
@@ -788,6 +797,29 @@ func genHttpSites() {
 					}
 					s.args = append(s.args, cl)
 				}
+				if kind == ".fprintf" || kind == ".bufprintf" {
+					key := fd.Name.Name + "\x00" + dst
+					st := states[key]
+					if st == nil {
+						st = &httpCtxState{}
+						states[key] = st
+					}
+					if fmtArg != nil && s.format != "?" {
+						s.ctxs = st.scan(s.format)
+					} else {
+						// no (constant) format string: the arguments are written as they are in
+						// the current context, and what follows is in an unknown context
+						for range rest {
+							s.ctxs = append(s.ctxs, st.ctx())
+						}
+						st.unknown = true
+					}
+					// one context per argument (a verb/argument mismatch is a raw row already)
+					for len(s.ctxs) < len(s.args) {
+						s.ctxs = append(s.ctxs, ".unknown")
+					}
+					s.ctxs = s.ctxs[:len(s.args)]
+				}
 				sites = append(sites, s)
 				return true
 			})
@@ -803,7 +835,7 @@ func genHttpSites() {
 		for _, a := range s.args {
 			as = append(as, a.lean())
 		}
-		fmt.Fprintf(&b, "\n  ⟨%s, %s, %s, %s, [%s]⟩", leanStr(s.loc), leanStr(s.fn), s.kind, leanStr(s.format), strings.Join(as, ", "))
+		fmt.Fprintf(&b, "\n  ⟨%s, %s, %s, %s, [%s], [%s]⟩", leanStr(s.loc), leanStr(s.fn), s.kind, leanStr(s.format), strings.Join(as, ", "), strings.Join(s.ctxs, ", "))
 	}
 	b.WriteString(" ]\nend Storrent.Gen\n")
 	writeIfChanged("HttpSites.lean", b.String())
@@ -827,4 +859,168 @@ func httpConstString(e ast.Expr) (string, bool) {
 		}
 	}
 	return "", false
+}
+
+// httpCtxState is a small HTML tokenizer state machine run over the constant format strings:
+// it tells in which quoting context each formatting verb sits.
+type httpCtxState struct {
+	mode    int    // one of the hm* constants
+	tag     string // name of the tag being read / last opened
+	closing bool   // the tag being read is an end tag
+	unknown bool
+}
+
+const (
+	hmText = iota
+	hmTagName
+	hmInTag
+	hmAttrName
+	hmAfterEq
+	hmAttrDq
+	hmAttrSq
+	hmAttrUnq
+	hmScript
+	hmStyle
+	hmComment
+)
+
+func (st *httpCtxState) ctx() string {
+	if st.unknown {
+		return ".unknown"
+	}
+	switch st.mode {
+	case hmText:
+		return ".text"
+	case hmTagName, hmInTag, hmAttrName:
+		return ".tag"
+	case hmAfterEq, hmAttrUnq:
+		return ".attrUnq"
+	case hmAttrDq:
+		return ".attrDq"
+	case hmAttrSq:
+		return ".attrSq"
+	case hmScript:
+		return ".script"
+	case hmStyle:
+		return ".style"
+	case hmComment:
+		return ".comment"
+	}
+	return ".unknown"
+}
+
+func (st *httpCtxState) endTag() {
+	switch {
+	case !st.closing && st.tag == "script":
+		st.mode = hmScript
+	case !st.closing && st.tag == "style":
+		st.mode = hmStyle
+	default:
+		st.mode = hmText
+	}
+}
+
+func httpIsLetter(c byte) bool { return c >= 'a' && c <= 'z' || c >= 'A' && c <= 'Z' }
+
+// step consumes one literal byte (rest = the bytes after it, for look-ahead)
+func (st *httpCtxState) step(c byte, rest string) {
+	switch st.mode {
+	case hmText:
+		if c == '<' {
+			switch {
+			case strings.HasPrefix(rest, "!--"):
+				st.mode = hmComment
+			case len(rest) > 0 && (httpIsLetter(rest[0]) || rest[0] == '/' || rest[0] == '!' || rest[0] == '?'):
+				st.mode, st.tag, st.closing = hmTagName, "", false
+			}
+		}
+	case hmTagName:
+		switch {
+		case c == '/' && st.tag == "":
+			st.closing = true
+		case c == '>':
+			st.endTag()
+		case c == ' ' || c == '\n' || c == '\t' || c == '/':
+			st.mode = hmInTag
+		default:
+			st.tag += strings.ToLower(string(c))
+		}
+	case hmInTag, hmAttrName:
+		switch {
+		case c == '>':
+			st.endTag()
+		case c == '=':
+			st.mode = hmAfterEq
+		case c == ' ' || c == '\n' || c == '\t' || c == '/':
+			st.mode = hmInTag
+		default:
+			st.mode = hmAttrName
+		}
+	case hmAfterEq:
+		switch {
+		case c == '"':
+			st.mode = hmAttrDq
+		case c == '\'':
+			st.mode = hmAttrSq
+		case c == '>':
+			st.endTag()
+		case c == ' ' || c == '\n' || c == '\t':
+		default:
+			st.mode = hmAttrUnq
+		}
+	case hmAttrDq:
+		if c == '"' {
+			st.mode = hmInTag
+		}
+	case hmAttrSq:
+		if c == '\'' {
+			st.mode = hmInTag
+		}
+	case hmAttrUnq:
+		if c == '>' {
+			st.endTag()
+		} else if c == ' ' || c == '\n' || c == '\t' {
+			st.mode = hmInTag
+		}
+	case hmScript, hmStyle:
+		name := "script"
+		if st.mode == hmStyle {
+			name = "style"
+		}
+		if c == '<' && len(rest) > len(name) && rest[0] == '/' && strings.EqualFold(rest[1:1+len(name)], name) {
+			st.mode, st.tag, st.closing = hmTagName, "", false
+		}
+	case hmComment:
+		if c == '-' && strings.HasPrefix(rest, "->") {
+			st.mode = hmText // the remaining "->" is harmless text
+		}
+	}
+}
+
+// scan runs the machine over a format string and returns the context of each
+// argument-consuming verb.
+func (st *httpCtxState) scan(f string) []string {
+	var out []string
+	for i := 0; i < len(f); i++ {
+		if f[i] != '%' {
+			st.step(f[i], f[i+1:])
+			continue
+		}
+		j := i + 1
+		for j < len(f) && strings.IndexByte("+-# 0123456789.", f[j]) >= 0 {
+			j++
+		}
+		if j >= len(f) {
+			break
+		}
+		if f[j] == '%' {
+			st.step('%', f[j+1:])
+		} else {
+			out = append(out, st.ctx())
+			// the printed value behaves like an ordinary character of the context
+			st.step('x', f[j+1:])
+		}
+		i = j
+	}
+	return out
 }
